@@ -240,3 +240,23 @@ extend("C18", "", "hostile positions: a property next to allOf/anyOf, a composit
 extend("C19", "A-TAGPAR (yaml option part)", "the decoded local is never initialised from the receiver; no yaml tag option yaml.v3 panics on; mapstructure.Decode of a possibly nil raw map into a typed map is "
        "guarded (known finding: null with typed additionalProperties panics).")
 extend("C20", "", "a definition with a cross-package property that is also an allOf branch keeps the package qualifier on the second visit (regression of an earlier repair, fixed by 8fc97c4).")
+
+# ---- round 5 additions
+FID = "A-FIDELITY: (*Type).UnmarshalJSON interpreted on one-keyword documents leaves exactly what plain encoding/json makes of them (no value normalised or dropped)"
+for pid, kws in (("C05", "minimum, maximum, multipleOf, exclusiveMinimum, exclusiveMaximum (0, 5, 2.5)"), ("C06", "pattern, minLength, maxLength"), ("C07", "minItems, maxItems"), ("C08", "enum (values that print alike, null, symbolic strings)"), ("C09", "default"), ("C13", "every keyword the decoder does not re-spell")):
+    extend(pid, FID, "decoder fidelity for " + kws + ".")
+extend("C01", "B-STDOUT", "nothing but the generated source is written to standard output (the default destination).")
+extend("C12", "B-TRUNC", "every file opened for writing is truncated: an output file's bytes do not depend on an earlier run.")
+extend("C18", "B-TRUNC, B-ARGS, B-STDOUT", "every CLI argument reaches DoFile itself; written files are truncated; standard output carries only code; a whole-file reference to a root-less document fails without a panic; "
+       "self-containing allOf is an error (fixed e686943), \"#/$defs/\" is an error (fixed e5576f3); known: a definition whose anyOf lists itself overflows the stack. Output helpers of main are part of the run function's output phase.")
+extend("C20", "B-MAPPRESENT", "per-id flag values are used verbatim when given, the empty string included.")
+extend("C10", "", "B-QUALIFIED: the probed candidates are unconditionally the name as written followed by every configured extension.")
+extend("C03", "B-MERGEMODEL", "maps whose value schema is a reference get the definition's type as value type; the mergo model's assumption about the TypeList transformer is checked.")
+extend("C04", "", "maps with referenced value schemas reach the value type's presence checks; a later allOf branch refining a nested object keeps its required members.")
+extend("C11", "B-MERGEMODEL, B-CYCLE", "the TypeList transformer is the no-op the model assumes; anyOf cycle markers are released on every path; nested-object and integer-then-number overlaps.")
+extend("C14", "", "A-IDENT also with user capitalizations that start lower-case; A-EVENT:symbolic-format on names; argument-order clause on same-$id files.")
+extend("C15", "", "an integer generated after a map / array / enum is sized like one generated first; a two-sided bounded integer is never plain int under the flag.")
+extend("C17", "", "a tag list without json: both methods enumerate the declared keys of the additional-properties block alike.")
+extend("C19", "A-TOTAL", "the UnmarshalJSON methods of pkg/types interpreted on every class of complete JSON value return (no index/slice panic).")
+extend("C07", "", "A-IDENT: the field a length check reads is exported for every name and capitalization.")
+extend("C02", "A-SIZED families", "end-to-end sized-integer families on optional properties.")
